@@ -337,7 +337,7 @@ func init() {
 
 	// ------------------------------------------------------------------ C13
 	register("C13", func(c *engine.Ctx) {
-		c.Rule = "random schemas (all features incl. $defs/$ref, titles, numeric- and boolean-looking property names) x every combination of the re-spellings {$id->id, $defs->definitions, #/$defs/->#/definitions/ (and upper-case prefix), type string -> one-element list} x {JSON, block YAML, flow YAML with non-string mapping keys, JSON with every non-ASCII character escaped, the JSON bytes (plain and escaped) under a .yaml name, YAML with every scalar double-quoted}; descriptions, enum members and defaults with text that needs escaping (non-ASCII, apostrophe, quotes, backslash, DEL, U+1F600); strings that look like other scalars (1e3, 0x10, 1_000, .inf, yes, ~, 2001-01-01, 1:20, …) as enum members, default, title, pattern and required property name; plus true vs {} as the anything-schema for additionalProperties / items; the root type name is fixed by --schema-root-type so that the file extension does not enter; plus one document whose structurally equal sites (a nested path colliding with a flat name, an allOf branch, array items) spell the same pointer differently (#/$defs/, #/definitions/, #/$Defs/, #/DEFINITIONS/; all 16 pairs under either container keyword). All outputs must be byte-identical to the canonical JSON spelling's. Distinct = distinct (re-spelling mask, format, schema shape)."
+		c.Rule = "random schemas (all features incl. $defs/$ref, titles, numeric- and boolean-looking property names) x every combination of the re-spellings {$id->id, $defs->definitions, #/$defs/->#/definitions/ (and upper-case prefix), type string -> one-element list} x {JSON, block YAML, flow YAML with non-string mapping keys, JSON with every non-ASCII character escaped, the JSON bytes (plain and escaped) under a .yaml name, YAML with every scalar double-quoted, JSON in another layout of the same tokens (spaces around every ':' and ',', CR LF, tabs; also under a .yaml name), JSON with the first character of every key written as a \\u escape}; descriptions, enum members and defaults with text that needs escaping (non-ASCII, apostrophe, quotes, backslash, DEL, U+1F600); strings that look like other scalars (1e3, 0x10, 1_000, .inf, yes, ~, 2001-01-01, 1:20, …) as enum members, default, title, pattern and required property name; plus true vs {} as the anything-schema for additionalProperties / items; the root type name is fixed by --schema-root-type so that the file extension does not enter; plus one document whose structurally equal sites (a nested path colliding with a flat name, an allOf branch, array items) spell the same pointer differently (#/$defs/, #/definitions/, #/$Defs/, #/DEFINITIONS/; all 16 pairs under either container keyword). All outputs must be byte-identical to the canonical JSON spelling's. Distinct = distinct (re-spelling mask, format, schema shape)."
 		c.Proofs([]string{"GJS.Props.C13", "GJS.Props.C10"}, []string{
 			"GJS.Props.C13.type_string_or_list", "GJS.Props.C13.true_is_empty_schema", "GJS.Props.C13.id_fallback", "GJS.Props.C13.defs_fallback",
 			"GJS.Props.C10.extractRef_prefix_equiv",
@@ -395,7 +395,7 @@ func init() {
 				if mask&4 != 0 && c.R.P(0.3) {
 					sp = upperRefPrefix(sp)
 				}
-				for _, form := range []string{"json", "yaml-block", "yaml-flow", "json-escaped", "json-as-yaml", "json-escaped-as-yaml", "yaml-double-quoted"} {
+				for _, form := range []string{"json", "yaml-block", "yaml-flow", "json-escaped", "json-as-yaml", "json-escaped-as-yaml", "yaml-double-quoted", "json-spaced", "json-key-escaped", "json-spaced-as-yaml"} {
 					var content []byte
 					file := "schema.json"
 					switch form {
@@ -415,6 +415,15 @@ func init() {
 						file = "schema.yaml"
 					case "json-escaped-as-yaml":
 						content = asciiEscapeJSON(core.MustJSON(sp))
+						file = "schema.yaml"
+					case "json-spaced":
+						// the same tokens in another layout: spaces around every ':' and ',', CR LF line ends, tab indentation
+						content = layoutJSON(core.MustJSON(sp), "spaced")
+					case "json-key-escaped":
+						// the first character of every key as a \u00XX escape: the same key
+						content = layoutJSON(core.MustJSON(sp), "key-escaped")
+					case "json-spaced-as-yaml":
+						content = layoutJSON(core.MustJSON(sp), "spaced")
 						file = "schema.yaml"
 					case "yaml-double-quoted":
 						content = toYAMLQuoted(sp)
@@ -695,6 +704,36 @@ func init() {
 								}
 							}
 						}
+					}
+				}
+			}
+		}
+		// --only-models on the near-duplicate table (two nodes asking for one Go type name, differing in one keyword or in
+		// nothing; neardup.go): which of them share a declaration is decided by comparing schema nodes, and must not depend
+		// on whether the methods are generated — same type declarations as the full run, also with --min-sized-ints
+		for ni, pc := range nearDupCases(c, "c16-near-duplicates") {
+			content := core.MustJSON(pc.Schema)
+			for _, ms := range []bool{false, true} {
+				if ms && ni%3 != 0 && !c.Thorough() {
+					continue
+				}
+				base := core.DefaultCfg()
+				base.MinSizedInts = ms
+				dir := filepath.Join(tmp, fmt.Sprintf("nd%d-%v", ni, ms))
+				full := genSrc(dir, "schema.json", content, base, "")
+				if strings.HasPrefix(full, "ERR") || strings.HasPrefix(full, "PANIC") {
+					continue
+				}
+				om := base
+				om.OnlyModels = true
+				omOut := genSrc(dir, "schema.json", content, om, "")
+				c.Eval(fmt.Sprintf("only-models-neardup|%s|%s|%v", pc.Labels[0], pc.Labels[1], ms))
+				c.Count("only-models on near-duplicates", pc.Labels[1])
+				if typeDeclsOf(omOut) != typeDeclsOf(full) {
+					fails++
+					if fails <= 3 {
+						c.Fail("oracle", "option --only-models: the type declarations differ from the full run's (same-named nodes: "+pc.Labels[0]+", "+pc.Labels[1]+")",
+							M{"kind": "relational", "option": "--only-models", "schema": string(content), "cfg_a": base, "cfg_b": om, "output_a": clip(full, 6000), "output_b": clip(omOut, 6000)}, false)
 					}
 				}
 			}
